@@ -9,5 +9,7 @@ CONSTANTS
   N = 3
   Starts = {1}
   Modes = {"geom", "merge"}
+  MaxMut = 2
+  DEV_SetterKeepsDistance = FALSE
   DEV_NoLoopGuard = FALSE
 INVARIANT Emit
